@@ -136,6 +136,13 @@ func New(ctx context.Context, params ...Parameter) (*Service, error) {
 func (s *Service) SetBeaconBlockRoot(slot phase0.Slot, root phase0.Root) {
 	s.beaconBlockRootsMu.Lock()
 	s.beaconBlockRoots[slot] = root
+	// A root is only removed by the aggregation for its slot, which does not take place if
+	// none of our validators is an aggregator; remove roots that are too old to be used.
+	for rootSlot := range s.beaconBlockRoots {
+		if uint64(rootSlot)+s.slotsPerEpoch < uint64(slot) {
+			delete(s.beaconBlockRoots, rootSlot)
+		}
+	}
 	s.beaconBlockRootsMu.Unlock()
 }
 
